@@ -1,7 +1,7 @@
 #!/bin/bash
 # usage: try_patch.sh <patch.diff> <tier> <ID> [<ID>...]   -- run checks against a scratch copy of /repo with the patch applied
 set -u
-patch=$(realpath "$1" 2>/dev/null || echo /dev/null); tier=$2; shift 2
+if [ "$1" = "-" ]; then patch=/dev/null; else patch=$(realpath "$1") || exit 9; [ -f "$patch" ] || { echo "no such patch $1"; exit 9; }; fi; tier=$2; shift 2
 wt=$(mktemp -d /tmp/trypatch.XXXXXX)
 trap 'git -C /repo worktree remove --force "$wt" >/dev/null 2>&1; rm -rf "$wt"' EXIT
 git -C /repo worktree add -q --detach "$wt" "${BASE:-HEAD}" || exit 9
